@@ -827,6 +827,15 @@ let () = register "c07" (fun line ->
           | Some (Heal.RErr _) -> outs := "err" :: !outs
           | None -> outs := "?" :: !outs)
        | _ -> outs := "NOT-SINGLE-KEY" :: !outs)
+    | "qx" :: body ->
+      let v = parse_val (Array.of_list body) (ref 0) in
+      (match Cluster.req_of_plan (plan_of v) with
+       | Some (Cluster.RFwd (_, [s])) ->
+         (* executed (once) exactly when the plain request would have been served *)
+         let served = (match snd (Heal.do_req RedisSem.sem c04_slot hosts !st s) with Heal.ROk _ -> true | Heal.RErr _ -> false) in
+         ignore (step (Heal.HReqLost s));
+         outs := (if served then "lost:1" else "err") :: !outs
+       | _ -> outs := "NOT-SINGLE-KEY" :: !outs)
     | ["kill"; _] -> ignore (step (Heal.HKill (nat 1)))
     | ["down"; n] -> downs := int_of_string n :: !downs; ignore (step (Heal.HDown (nat 1)))
     | ["up"; n] -> downs := L.filter (fun x -> x <> int_of_string n) !downs; ignore (step (Heal.HUp (nat 1)))
